@@ -315,6 +315,8 @@ def run_case(cs):
         _race(cs, rng, root)
     if rng.random() < 0.12:
         _interrupt(cs, rng, d, area, root)
+    if rng.random() < 0.08:
+        _linked_history(cs, rng, area, root)
     cs.sample({"state": state, "tree": sorted(tree)[:6]})
 
 
@@ -352,6 +354,42 @@ def _strace_audit(cs, d, area, root, dest, state):
         bad = [r for r in relevant if not all(os.path.abspath(p).startswith(dest) for p in r[1])]
         if bad:
             cs.violation("flatten-writes-outside-destination", {"kind": "syscall-mutation", "cmd": tool, "event": bad[0][0]}, {**ctx, "syscalls": [r[2] for r in bad[:3]]})
+
+
+def _linked_history(cs, rng, area, root):
+    """a folder outside of the root that has a history of its own is reachable through a symbolic link below the root: a
+    run on the root (whole folder, or -sf with a path through the link) has no business in that history"""
+    arch = os.path.join(area, "archive-%d" % rng.randint(0, 9))
+    if os.path.lexists(arch) or os.path.lexists(os.path.join(root, "ref")) or not os.path.isdir(root):
+        return
+    os.makedirs(arch)
+    with open(os.path.join(arch, "clip.mov"), "wb") as f:
+        f.write(b"archived" + rng.randbytes(3))
+    if drive.run("create", [arch, "-h", "md5"]).exit != 0:
+        return
+    os.symlink(arch if rng.random() < 0.5 else os.path.relpath(arch, root), os.path.join(root, "ref"))
+    world.set_mtimes(area, rng)
+    for argv, oc in (([root, "-h", "md5", "-sf", os.path.join(root, "ref", "clip.mov")], "sf-file-through-link"), ([root, "-h", "md5", "-sf", os.path.join(root, "ref")], "sf-link"), ([root, "-h", "md5"], "folder")):
+        if rng.random() < 0.5:
+            continue
+        before = snap.snap(area)
+        with audit.record() as ev:
+            r = drive.run("create", argv)
+        after = snap.snap(area)
+        cs.evaluated()
+        cs.count("create_commands")
+        cs.count("create_with_linked_outside_history")
+        cs.cls("create", "linked-history-" + oc, "any", r.exit)
+        df = snap.diff(before, after)
+        arel = os.path.relpath(arch, area)
+        touched = [p for p in list(df["added"]) + list(df["removed"]) + list(df["changed"]) if p == arel or p.startswith(arel + "/")]
+        if touched:
+            cs.violation(
+                "create-changes-more-than-documented",
+                {"kind": "snapshot-diff", "cmd": "create-" + oc, "what": ["history-outside-the-root-written"], "media_touched": False},
+                {"exit": r.exit, "touched": sorted(touched)[:5]},
+            )
+    os.remove(os.path.join(root, "ref"))
 
 
 def _interrupt(cs, rng, d, area, root):
